@@ -12,7 +12,7 @@ from numpy.typing import NDArray  # noqa: TC002
 from ropt.config.enopt import EnOptConfig
 from ropt.ensemble_evaluator import EnsembleEvaluator
 from ropt.enums import EventType, OptimizerExitCode
-from ropt.exceptions import OptimizationAborted
+from ropt.exceptions import OptimizationAborted, PlanAborted
 from ropt.optimization import EnsembleOptimizer
 from ropt.plan import Event, Plan
 from ropt.plugins.plan.base import PlanStep
@@ -196,7 +196,12 @@ class DefaultOptimizerStep(PlanStep):
         if self._nested_optimization is None:
             return None, False
         self._nested_optimization.set_parent(self.plan)
-        results = self._nested_optimization.run_function(variables)
+        try:
+            results = self._nested_optimization.run_function(variables)
+        except PlanAborted:
+            # The nested plan was aborted, and its function tried to run a
+            # further step: handle it like any other abort of the nested plan.
+            results = None
         if self._nested_optimization.aborted:
             self.plan.abort()
         # A nested optimization that was aborted, or that failed to find any
